@@ -230,29 +230,105 @@ Proof.
   induction cfgd as [|k r IH]; simpl; [reflexivity|exact IH].
 Qed.
 
-Lemma start_list_shape : forall o c todo st,
-  exists rc st', start_list o c todo st = Returned rc st' no_listener /\ (rc = 0 \/ rc = 1) /\
-                 (exists mid, st' = st ++ mid /\ (todo <> [] -> mid <> []) /\ (rc = 0 -> mid = todo) /\
-                              (forall k, In k mid -> In k todo)).
+Lemma coordinators_cluster : forall c, In CCluster (coordinators c).
+Proof. intro c. unfold coordinators. destruct (have_notifiers c); simpl; tauto. Qed.
+
+(* What a start loop that RETURNS has done (no hypothesis: a panicking one does not return). *)
+Lemma start_list_returned : forall o c todo st rc st' ls,
+  start_list o c todo st = Returned rc st' ls ->
+  ls = no_listener /\ (rc = 0 \/ rc = 1) /\
+  (exists mid, st' = st ++ mid /\ (todo <> [] -> mid <> []) /\ (rc = 0 -> mid = todo) /\
+               (forall k, In k mid -> In k todo)).
 Proof.
-  intros o c todo. induction todo as [|k r IH]; intros st; simpl.
-  - exists 0, st. rewrite still_listening_all_stopped. split; [reflexivity|]. split; [now left|]. exists []. rewrite app_nil_r.
-    repeat split; auto; try (intros ? []).
+  intros o c todo. induction todo as [|k r IH]; intros st rc st' ls H; simpl in H.
+  - rewrite still_listening_all_stopped in H. inversion H; subst. split; [reflexivity|]. split; [now left|].
+    exists []. rewrite app_nil_r. repeat split; auto; try (intros ? []).
   - destruct (start_coord o c k).
-    + destruct (IH (st ++ [k])) as (rc & st' & E & Hrc & mid & -> & Hne & Hall & Hin).
-      exists rc, ((st ++ [k]) ++ mid). split; [exact E|]. split; [exact Hrc|].
+    + destruct (IH _ _ _ _ H) as (Hls & Hrc & mid & -> & Hne & Hall & Hin).
+      split; [exact Hls|]. split; [exact Hrc|].
       exists (k :: mid). rewrite <- app_assoc. simpl. repeat split; auto; try discriminate.
       * intro H0. now rewrite (Hall H0).
       * intros x [<-|Hx]; [now left|right; now apply Hin].
-    + exists 1, (st ++ [k]). rewrite still_listening_all_stopped. split; [reflexivity|]. split; [now right|]. exists [k].
-      repeat split; auto; try discriminate. intros x [<-|[]]. now left.
+    + rewrite still_listening_all_stopped in H. inversion H; subst. split; [reflexivity|]. split; [now right|].
+      exists [k]. repeat split; auto; try discriminate. intros x [<-|[]]. now left.
+    + discriminate H.
+Qed.
+
+(* no coordinator of the list panics in its Start *)
+Definition no_start_panic (o : order) (c : config) (todo : list coord) : Prop :=
+  forall k p, In k todo -> start_coord o c k <> StartPanic p.
+
+Lemma start_list_total : forall o c todo st, no_start_panic o c todo ->
+  exists rc st' ls, start_list o c todo st = Returned rc st' ls.
+Proof.
+  intros o c todo. induction todo as [|k r IH]; intros st Hnp; simpl.
+  - eauto.
+  - destruct (start_coord o c k) eqn:E.
+    + apply IH. intros k' p Hk'. apply Hnp. now right.
+    + eauto.
+    + exfalso. exact (Hnp k p (or_introl eq_refl) E).
+Qed.
+
+(* The checks of Configure cover what Start would trip over: a configuration that every Configure accepted makes no
+   coordinator's Start panic (storage: workers >= 1; cluster: ticker periods positive). *)
+Lemma storage_mod_workers : forall c m, configure_storage_mod c m = None -> start_storage_mod m = None.
+Proof.
+  intros c m H. unfold configure_storage_mod, guard in H. unfold start_storage_mod.
+  destruct (st_class m); try discriminate H.
+  destruct (1 <=? st_workers m) eqn:E; [|discriminate H].
+  apply Z.leb_le in E. destruct (st_workers m <? 0) eqn:F; [|reflexivity]. apply Z.ltb_lt in F. lia.
+Qed.
+
+Lemma cluster_mod_tickers : forall c m, configure_cluster_mod c m = None -> cluster_tickers_ok m = true.
+Proof.
+  intros c m H. unfold configure_cluster_mod, guard in H. unfold cluster_tickers_ok.
+  destruct (cl_class m); try discriminate H.
+  destruct (configure_profile c (cl_name m) (cl_profile m)); [discriminate H|].
+  destruct (nonempty (cl_servers m)); [|discriminate H].
+  destruct (servers_ok c (cl_servers m)); [|discriminate H].
+  destruct ((1 <=? cl_offset_refresh m) && (1 <=? cl_topic_refresh m)); [|discriminate H].
+  destruct (0 <=? cl_reaper_refresh m); [reflexivity|discriminate H].
+Qed.
+
+Lemma accepted_storage_scan : forall o c, configure_all o c = None -> scan start_storage_mod (ord_storage o) = None.
+Proof.
+  intros o c H. unfold configure_all in H. rewrite scan_none_iff in H.
+  specialize (H CStorage (coordinators_storage c)). simpl in H. unfold configure_storage, guard in H.
+  destruct (Nat.leb (length (cfg_storage c)) 1); [|discriminate H].
+  rewrite scan_none_iff in H. apply scan_none_iff. intros m Hm. eapply storage_mod_workers. apply H, Hm.
+Qed.
+
+Lemma accepted_cluster_tickers : forall o c, configure_all o c = None ->
+  forall m, In m (ord_cluster o) -> cluster_tickers_ok m = true.
+Proof.
+  intros o c H m Hm. unfold configure_all in H. rewrite scan_none_iff in H.
+  specialize (H CCluster (coordinators_cluster c)). simpl in H. unfold configure_cluster in H.
+  rewrite scan_none_iff in H. eapply cluster_mod_tickers. apply H, Hm.
+Qed.
+
+Lemma start_clusters_form : forall c l, (forall m, In m l -> cluster_tickers_ok m = true) ->
+  start_clusters c l = if forallb (fun m => reachable c (cl_servers m)) l then StartOk else StartError.
+Proof.
+  induction l as [|m r IH]; intro H; simpl; [reflexivity|].
+  destruct (reachable c (cl_servers m)); simpl; [|reflexivity].
+  rewrite (H m (or_introl eq_refl)). apply IH. intros x Hx. apply H. now right.
+Qed.
+
+Theorem start_accepted_no_panic : forall o c, configure_all o c = None -> no_start_panic o c (coordinators c).
+Proof.
+  intros o c H k p _ E. destruct k; simpl in E; try discriminate E.
+  - destruct (zookeeper_tls_ok c && zookeeper_root_ok c); discriminate E.
+  - rewrite (accepted_storage_scan o c H) in E. discriminate E.
+  - rewrite (start_clusters_form c _ (accepted_cluster_tickers o c H)) in E.
+    destruct (forallb _ _); discriminate E.
+  - destruct (forallb _ _); discriminate E.
 Qed.
 
 Lemma start_list_not_refusal : forall o c ls, start_list o c (coordinators c) [] <> Returned 1 nothing_started ls.
 Proof.
   intros o c ls H.
-  destruct (start_list_shape o c (coordinators c) []) as (rc & st' & E & _ & mid & -> & Hne & _).
-  rewrite E in H. inversion H. simpl in *. subst.
+  destruct (start_list_returned _ _ _ _ _ _ _ H) as (_ & _ & mid & Hst & Hne & _).
+  simpl in Hst. unfold nothing_started in Hst. subst mid.
   apply Hne; [|reflexivity]. pose proof (coordinators_storage c) as Hs. intro E0. rewrite E0 in Hs. destruct Hs.
 Qed.
 
@@ -312,14 +388,15 @@ Theorem no_listener_left_open : forall o c a rc started ls, start o c a = Return
 Proof.
   intros o c a rc started ls H. rewrite start_unfold in H. destruct (configure_all o c).
   - inversion H. reflexivity.
-  - destruct (start_list_shape o c (coordinators c) []) as (rc' & st' & E & _). rewrite E in H. inversion H. reflexivity.
+  - destruct (start_list_returned _ _ _ _ _ _ _ H) as (Hls & _). exact Hls.
 Qed.
 
 Theorem start_never_panics : forall o c a p, start o c a <> Panicked p.
 Proof.
-  intros o c a p. rewrite start_unfold. destruct (configure_all o c).
+  intros o c a p. rewrite start_unfold. destruct (configure_all o c) eqn:E0.
   - discriminate.
-  - destruct (start_list_shape o c (coordinators c) []) as (rc & st' & E & _). rewrite E. discriminate.
+  - destruct (start_list_total o c (coordinators c) [] (start_accepted_no_panic o c E0)) as (rc & st' & ls & E).
+    rewrite E. discriminate.
 Qed.
 
 (* C19, acceptance: the configuration satisfies every requirement exactly when ConfigurationValid is set afterwards;
@@ -348,25 +425,33 @@ Theorem valid_is_started : forall o c a, order_ok o c -> requirements c = [] ->
                      (forall k, In k started -> In k (coordinators c)) /\ (rc = 0 -> started = coordinators c).
 Proof.
   intros o c a Hok Hreq. rewrite start_unfold. apply (configure_iff_valid o c Hok) in Hreq. rewrite Hreq.
-  destruct (start_list_shape o c (coordinators c) []) as (rc & st' & E & Hrc & mid & -> & Hne & Hall & Hin).
-  exists rc, ([] ++ mid). simpl. repeat split; auto.
+  destruct (start_list_total o c (coordinators c) [] (start_accepted_no_panic o c Hreq)) as (rc & st' & ls & E).
+  destruct (start_list_returned _ _ _ _ _ _ _ E) as (-> & Hrc & mid & -> & Hne & Hall & Hin).
+  exists rc, ([] ++ mid). rewrite E. simpl. repeat split; auto.
   apply Hne. pose proof (coordinators_storage c) as Hs. intro E0. rewrite E0 in Hs. destruct Hs.
 Qed.
 
 (* C19, map order: the whole observable outcome of Start is the same for every iteration order of the Go maps. *)
-Lemma start_coord_order : forall o1 o2 c k, order_ok o1 c -> order_ok o2 c -> start_coord o1 c k = start_coord o2 c k.
+Lemma start_coord_order : forall o1 o2 c k, order_ok o1 c -> order_ok o2 c ->
+  configure_all o1 c = None -> configure_all o2 c = None -> start_coord o1 c k = start_coord o2 c k.
 Proof.
-  intros o1 o2 c k (_ & _ & _ & _ & Hcl1 & Hcn1) (_ & _ & _ & _ & Hcl2 & Hcn2).
-  destruct k; simpl; try reflexivity; apply forallb_perm.
-  - eapply Permutation_trans; [exact Hcl1|apply Permutation_sym, Hcl2].
-  - eapply Permutation_trans; [exact Hcn1|apply Permutation_sym, Hcn2].
+  intros o1 o2 c k (_ & _ & _ & _ & Hcl1 & Hcn1) (_ & _ & _ & _ & Hcl2 & Hcn2) A1 A2.
+  destruct k; simpl; try reflexivity.
+  - rewrite (accepted_storage_scan o1 c A1), (accepted_storage_scan o2 c A2). reflexivity.
+  - rewrite (start_clusters_form c _ (accepted_cluster_tickers o1 c A1)),
+            (start_clusters_form c _ (accepted_cluster_tickers o2 c A2)).
+    rewrite (forallb_perm _ _ (ord_cluster o1) (ord_cluster o2)); [reflexivity|].
+    eapply Permutation_trans; [exact Hcl1|apply Permutation_sym, Hcl2].
+  - rewrite (forallb_perm _ _ (ord_consumer o1) (ord_consumer o2)); [reflexivity|].
+    eapply Permutation_trans; [exact Hcn1|apply Permutation_sym, Hcn2].
 Qed.
 
 Lemma start_list_order : forall o1 o2 c todo st, order_ok o1 c -> order_ok o2 c ->
+  configure_all o1 c = None -> configure_all o2 c = None ->
   start_list o1 c todo st = start_list o2 c todo st.
 Proof.
-  intros o1 o2 c todo. induction todo as [|k r IH]; intros st H1 H2; simpl; [reflexivity|].
-  rewrite (start_coord_order o1 o2 c k H1 H2). destruct (start_coord o2 c k); auto.
+  intros o1 o2 c todo. induction todo as [|k r IH]; intros st H1 H2 A1 A2; simpl; [reflexivity|].
+  rewrite (start_coord_order o1 o2 c k H1 H2 A1 A2). destruct (start_coord o2 c k); auto.
 Qed.
 
 Theorem order_independent : forall o1 o2 c a, order_ok o1 c -> order_ok o2 c ->
@@ -512,7 +597,7 @@ Definition all_ok : str -> bool := fun _ => true.
 Definition ex_valid : config := {|
   cfg_notifier_table := false;
   cfg_zk_servers := [11]; cfg_zk_root := Some 12; cfg_zk_tls := None;
-  cfg_storage := [ {| st_name := 1; st_class := ClsInmemory; st_queue_depth := 1; st_legacy := false; st_allow := 7; st_deny := 0 |} ];
+  cfg_storage := [ {| st_name := 1; st_class := ClsInmemory; st_workers := 20; st_queue_depth := 1; st_legacy := false; st_allow := 7; st_deny := 0 |} ];
   cfg_evaluator := [ {| ev_name := 2; ev_class := ClsCaching; ev_expire := 10 |} ];
   cfg_http := [ {| hs_name := 3; hs_addr := 13; hs_tls := None |} ];
   cfg_notifier := [ {| nt_name := 4; nt_class := ClsNull; nt_legacy := false; nt_allow := 0; nt_deny := 0;
@@ -539,13 +624,54 @@ Definition ex_bad_regex : config := {|
 Definition ex_bad_depth : config := {|
   cfg_notifier_table := false;
   cfg_zk_servers := cfg_zk_servers ex_valid; cfg_zk_root := cfg_zk_root ex_valid; cfg_zk_tls := None;
-  cfg_storage := [ {| st_name := 1; st_class := ClsInmemory; st_queue_depth := -1; st_legacy := false; st_allow := 7; st_deny := 0 |} ];
+  cfg_storage := [ {| st_name := 1; st_class := ClsInmemory; st_workers := 20; st_queue_depth := -1; st_legacy := false; st_allow := 7; st_deny := 0 |} ];
   cfg_evaluator := cfg_evaluator ex_valid; cfg_http := cfg_http ex_valid;
   cfg_notifier := cfg_notifier ex_valid; cfg_cluster := []; cfg_consumer := []; cfg_profiles := []; cfg_sasl := [];
   cfg_tls := []; cfg_files := [14];
   regex_ok := all_ok; template_ok := template_ok ex_valid; hostport_ok := all_ok; listen_ok := all_ok;
   zkpath_ok := all_ok; zkroot_trivial := fun s => s =? 12; zkcons_ok := all_ok; kversion_ok := all_ok; mail_ok := fun _ _ => true;
   keypair_ok := fun _ _ => true; ca_pem_ok := all_ok; reachable := fun _ => false |}.
+
+(* ex_valid with workers = -1 (the audit's witness; core.Start was left by "makeslice: len out of range" before 746d605) *)
+Definition ex_bad_workers : config := {|
+  cfg_notifier_table := false;
+  cfg_zk_servers := cfg_zk_servers ex_valid; cfg_zk_root := cfg_zk_root ex_valid; cfg_zk_tls := None;
+  cfg_storage := [ {| st_name := 1; st_class := ClsInmemory; st_workers := -1; st_queue_depth := 1; st_legacy := false; st_allow := 7; st_deny := 0 |} ];
+  cfg_evaluator := cfg_evaluator ex_valid; cfg_http := cfg_http ex_valid;
+  cfg_notifier := cfg_notifier ex_valid; cfg_cluster := []; cfg_consumer := []; cfg_profiles := []; cfg_sasl := [];
+  cfg_tls := []; cfg_files := [14];
+  regex_ok := all_ok; template_ok := template_ok ex_valid; hostport_ok := all_ok; listen_ok := all_ok;
+  zkpath_ok := all_ok; zkroot_trivial := fun s => s =? 12; zkcons_ok := all_ok; kversion_ok := all_ok; mail_ok := fun _ _ => true;
+  keypair_ok := fun _ _ => true; ca_pem_ok := all_ok; reachable := fun _ => false |}.
+
+(* a cluster on REACHABLE brokers with offset-refresh = 0 (time.NewTicker(0) panicked in KafkaCluster.Start before 4350030) *)
+Definition ex_bad_refresh : config := {|
+  cfg_notifier_table := false;
+  cfg_zk_servers := cfg_zk_servers ex_valid; cfg_zk_root := cfg_zk_root ex_valid; cfg_zk_tls := None;
+  cfg_storage := cfg_storage ex_valid; cfg_evaluator := cfg_evaluator ex_valid; cfg_http := cfg_http ex_valid;
+  cfg_notifier := cfg_notifier ex_valid;
+  cfg_cluster := [ {| cl_name := 5; cl_class := ClsKafka; cl_profile := 0; cl_servers := [15];
+                      cl_offset_refresh := 0; cl_topic_refresh := 60; cl_reaper_refresh := 0 |} ];
+  cfg_consumer := []; cfg_profiles := []; cfg_sasl := []; cfg_tls := []; cfg_files := [14];
+  regex_ok := all_ok; template_ok := template_ok ex_valid; hostport_ok := all_ok; listen_ok := all_ok;
+  zkpath_ok := all_ok; zkroot_trivial := fun s => s =? 12; zkcons_ok := all_ok; kversion_ok := all_ok; mail_ok := fun _ _ => true;
+  keypair_ok := fun _ _ => true; ca_pem_ok := all_ok; reachable := fun _ => true |}.
+
+(* Now refused in Configure.  The last conjunct of each is the start loop on its own — what core.Start ran into while
+   Configure still accepted these values (the only violated requirement is the new one): a panic that leaves Start. *)
+Example ex_bad_workers_refused :
+  requirements ex_bad_workers = [(StorageWorkers, 1)] /\
+  start (canonical_order ex_bad_workers) ex_bad_workers fresh_app = Returned 1 nothing_started no_listener /\
+  start_list (canonical_order ex_bad_workers) ex_bad_workers (coordinators ex_bad_workers) []
+    = Panicked (PanicError StorageWorkers 1).
+Proof. vm_compute. repeat split. Qed.
+
+Example ex_bad_refresh_refused :
+  requirements ex_bad_refresh = [(ClusterRefresh, 5)] /\
+  start (canonical_order ex_bad_refresh) ex_bad_refresh fresh_app = Returned 1 nothing_started no_listener /\
+  start_list (canonical_order ex_bad_refresh) ex_bad_refresh (coordinators ex_bad_refresh) []
+    = Panicked (PanicString ClusterRefresh 5).
+Proof. vm_compute. repeat split. Qed.
 
 (* ex_valid without zookeeper.root-path: the default "/burrow" has to be created on the (unreachable) ensemble *)
 Definition ex_default_root : config := {|
